@@ -13,12 +13,17 @@ CFG = dict(
          "members (1100-4000 virtual nodes; xxh3, or a tie-heavy spread/high hash), Lookups also during the initial load, then 6-11 "
          "batches of 0-3 removes and 0-3 inserts in random order with no Lookup inside a batch (remove+insert pairs, multi-member "
          "batches, remove-then-reinsert of the same member, re-join of an earlier removed member), each batch followed by 6-10 sampled "
-         "addresses asked of the ring under test and of a fresh ring; its hash calls are handed over grouped by name; each Lookup is also asked of a ring built fresh from the current members in "
+         "addresses asked of the ring under test and of a fresh ring; its hash calls are handed over grouped by name; two cases in 50 (indices 13, 38 mod 50) run 3-7 REAL proxy-neighbour managers "
+         "(felix/dataplane/linux/proxy_neigh_mgr.go), one per node, each fed its own interleaving of the same per-host "
+         "HostMetadataUpdate/Remove streams with repeats, flaps, selectNodeForIP and CompleteDeferredWork calls, sometimes missing the "
+         "last event, hosts without an address of the family, mixed families, an outsider node, then asked which of 6-10 addresses "
+         "they own; in ring cases each Lookup is also asked of a ring built fresh from the current members in "
          "shuffled order; non-trivial = some Lookup happened with >=2 current members after at least one effective Remove; "
          "distinct by (replicas, probes, ops, recorded hash table)",
     trusted=["Coq 8.16.1 kernel + vm_compute",
              "hand-written model coq/theories/C45/Model.v tied to lib/datastructures/hashring by this correspondence run",
-             "Go driver harness/C45 (overlay build, tag verif; shim exposes only the package's defaultHash)",
+             "Go driver harness/C45 (overlay build, tag verif; shims: hashring.VerifDefaultHash exposes the package's defaultHash, "
+             "intdataplane.VerifC45Node wraps a real proxyNeighManager: OnUpdate, dirty, CompleteDeferredWork, selectNodeForIP)",
              "slices.SortFunc sorts and slices.DeleteFunc is stable (Go standard library contracts)"],
     assumptions=["the hash function is an arbitrary function []byte -> uint64 (Section variable; no injectivity or distribution assumed)",
                  "replicas >= 1 and probes >= 1 (New panics otherwise)",
@@ -49,7 +54,7 @@ MANIFEST = dict(
     text="Theorems over an executable model of hashring.Ring (deferred sweep, lazy sort, virtual nodes, multi-probe bisection "
          "lookup) for ANY hash function and any insert/remove/lookup history: the owner is a current member with its latest value "
          "(none iff no members, never a panic), and the lookup result equals that of any other history, in particular a freshly "
-         "built ring, with the same member set; the winner is the member with a virtual node at the smallest clockwise distance from a probe; the model's bisection equals a linear scan on every reachable table; the oracle accepts every model run; plus a correspondence run of the model and a spec oracle against the real Go ring.",
+         "built ring, with the same member set; the winner is the member with a virtual node at the smallest clockwise distance from a probe; the model's bisection equals a linear scan on every reachable table; the oracle accepts every model run; for the caller (proxy_neigh_mgr.go HostMetadata handling, dirty flag, selectNodeForIP): every node that knows the same hosts answers 'mine' exactly for one common owner, dirty is raised exactly by membership changes, node oracle accepts all model nodes; plus a correspondence run of the model and a spec oracle against the real Go ring.",
     note="Trusted: Coq kernel; hand-written model tied to the code only by the correspondence run; Go driver; sort/stable-delete "
          "contracts of the Go standard library.",
 )
